@@ -82,6 +82,14 @@ func applyTimeRange(candidates []treasure.Treasure, beaconType hydra.BeaconType,
 		// The key index has no time axis; the beacon walk ignores the window too.
 		return candidates
 	}
+	// A time index only contains the records that carry that timestamp.
+	kept := candidates[:0]
+	for _, t := range candidates {
+		if beaconTimeOf(t, beaconType) != 0 {
+			kept = append(kept, t)
+		}
+	}
+	candidates = kept
 	if fromTime == nil && toTime == nil {
 		return candidates
 	}
